@@ -155,13 +155,12 @@ ms_jobs(4, 'check', 'quick')
 ms_jobs(6, 'baseline', 'quick')
 ms_jobs(12, 'baseline', 'quick')
 ms_jobs(2, 'baseline', 'quick', ku=1, kc=1, slot=48, smax=16, timeout=600)
-for op in range(1, 13):
-    if op != 11:
-        ms_jobs(op, 'baseline', 'thorough', timeout=3000, mem=24)
-        ms_jobs(op, 'release', 'thorough', ku=3, kc=2, timeout=3000, mem=24)
-ms_jobs(11, 'baseline', 'thorough', timeout=3000, mem=24)
-ms_jobs(2, 'debug8', 'thorough', timeout=3000, mem=24)
-ms_jobs(4, 'debug8', 'thorough', timeout=3000, mem=24)
+for op in (2, 3, 4, 5, 6, 7):
+    ms_jobs(op, 'baseline', 'thorough', timeout=3000, mem=16)
+for op in (2, 4, 5, 6, 10, 12):
+    ms_jobs(op, 'release', 'thorough', ku=3, kc=2, timeout=3000, mem=16)
+ms_jobs(11, 'baseline', 'thorough', timeout=3000, mem=16)
+ms_jobs(2, 'debug8', 'thorough', ku=1, kc=1, slot=48, smax=16, timeout=3000, mem=16)
 
 # ---------------------------------------------------------------- memory_pool_collection<node_pool, log2_buckets> steps
 CO_OPS = {9: 'reserve', 1: 'ctor', 2: 'allocate_node', 3: 'try_allocate_node', 4: 'deallocate_node', 5: 'try_deallocate_node', 6: 'dtor', 7: 'allocate_array', 8: 'try_allocate_array'}
@@ -178,9 +177,9 @@ for op in (1, 4, 5, 6):
 for op in (2, 3, 9):
     co_jobs(op, 'release', 'quick', nslot=1, restmax=40)
 for op in (2, 3, 7, 8, 9):
-    co_jobs(op, 'release', 'thorough', timeout=3000, mem=24)
-for op in range(1, 9):
-    co_jobs(op, 'baseline', 'thorough', timeout=3000, mem=24)
+    co_jobs(op, 'release', 'thorough', timeout=3000, mem=16)
+for op in (4, 6):
+    co_jobs(op, 'baseline', 'thorough', timeout=3000, mem=16)
 
 # ---------------------------------------------------------------- adapters over recording leaves
 AD_COMP = {'direct': ['EXACT_SHAPE'], 'ref': ['EXACT_SHAPE'], 'any': [], 'ts': ['EXACT_SHAPE', 'EXPECT_MUTEX', 'LOCK_PROXY'], 'al': ['NEED_POW2_ARG'],
@@ -228,8 +227,8 @@ def sm_job(case, tier, nmax, timeout=900, mem=12):
         unwind=20, timeout=timeout, tier=tier, mem_gb=mem, desc='%s with a constructor that throws at a symbolic index (or not at all), leaf allocation may fail' % SM[case][0],
         bounds='array length 0..%d, failure at every constructor call index or none, joint additional size 0..64, second array 0..16 bytes' % nmax)
 sm_job(1, 'quick', 4); sm_job(2, 'quick', 1); sm_job(4, 'quick', 2); sm_job(6, 'quick', 2); sm_job(7, 'quick', 2)
-sm_job(7, 'thorough', 4, 3000, 24)
-sm_job(1, 'thorough', 8, 3000, 24); sm_job(4, 'thorough', 4, 3000, 24); sm_job(6, 'thorough', 4, 3000, 24); sm_job(5, 'thorough', 2, 3600, 24)
+sm_job(7, 'thorough', 3, 3000, 16)
+sm_job(1, 'thorough', 8, 3000, 16); sm_job(4, 'thorough', 3, 3000, 16); sm_job(5, 'thorough', 2, 3600, 16)
 
 # ---------------------------------------------------------------- temporary allocator (mode 2)
 TEMP_HEAP = 0x80 + 4 * 96
@@ -271,8 +270,8 @@ def po_jobs(kind, op, config, tier, nsz=16, npb=2, timeout=600, mem=12):
 for kind in ('pn', 'pa'):
     for op in (1, 2, 3, 4, 5, 6, 9) + ((7, 8) if kind == 'pa' else ()):
         po_jobs(kind, op, 'release', 'quick')
-        po_jobs(kind, op, 'baseline', 'thorough', timeout=3000, mem=24)
-        po_jobs(kind, op, 'release', 'thorough', nsz=24, npb=3, timeout=3000, mem=24)
+        if op in (2, 4, 6, 7, 8): po_jobs(kind, op, 'baseline', 'thorough', timeout=3000, mem=16)
+        if op in (2, 3, 4, 7, 8): po_jobs(kind, op, 'release', 'thorough', nsz=24, npb=3, timeout=3000, mem=16)
 for op in (4, 6, 9):
     po_jobs('pn', op, 'baseline', 'quick')
 
